@@ -227,6 +227,11 @@ func (r *Reader) ReadWord(p []byte) error {
 	case r.literal > 0:
 		r.literal--
 		_, err := io.ReadFull(r.rd, p)
+		if err == io.EOF {
+			// The stream ends inside a literal run: that is a
+			// truncation, not a clean end of stream.
+			err = io.ErrUnexpectedEOF
+		}
 		return err
 	}
 
